@@ -64,6 +64,22 @@ EXC_TYPES = {
     "KeyboardInterrupt": KeyboardInterrupt,
     "InjectedBase": InjectedBase,
     "AttributeError": AttributeError,
+    "NotImplementedError": NotImplementedError,
+    "RecursionError": RecursionError,
+    "LookupError": LookupError,
+    "ArithmeticError": ArithmeticError,
+    "OSError": OSError,
+    "TimeoutError": TimeoutError,
+    "EOFError": EOFError,
+    "BufferError": BufferError,
+    "UserWarning": UserWarning,
+    "RuntimeWarning": RuntimeWarning,
+    "SystemExit": SystemExit,
+    "GeneratorExit": GeneratorExit,
+    "InjectedValueError": type("InjectedValueError", (ValueError,), {}),
+    "InjectedTypeError": type("InjectedTypeError", (TypeError,), {}),
+    "InjectedIndexError": type("InjectedIndexError", (IndexError,), {}),
+    "InjectedLinAlgError": type("InjectedLinAlgError", (np.linalg.LinAlgError,), {}),
     "KeyError": KeyError,
     "RuntimeError": RuntimeError,
     "OverflowError": OverflowError,
